@@ -14,6 +14,9 @@ pub mod scen_dgram;
 pub mod scen_gate;
 pub mod scen_multi;
 pub mod scen_progress;
+pub mod scen_path;
+pub mod scen_term;
+pub mod txobs;
 pub mod scen_zrtt2;
 pub mod ledger;
 pub mod scen_conn;
